@@ -94,9 +94,12 @@ def tlc_raw(module, cfg, extra=(), workers=8, timeout=900, env=None, tag="mc", j
         e["JAVA_TOOL_OPTIONS"] = java_opts
     if env:
         e.update(env)
-    out = sh(cmd, timeout, cwd=SPEC, env=e, ok_codes=tuple(range(0, 256)))
     import shutil
-    shutil.rmtree(md, ignore_errors=True)
+    try:
+        out = sh(cmd, timeout, cwd=SPEC, env=e, ok_codes=tuple(range(0, 256)))
+    finally:
+        # (also after a time-out: a killed TLC leaves its state files behind - tens of gigabytes for a large model)
+        shutil.rmtree(md, ignore_errors=True)
     return out
 
 
